@@ -145,7 +145,10 @@ def run(ctx):
         if ds is not None:
             call(ctx, 'apply_decisions', apply_decisions, [nb_, ds])
             lds = lift(nb_, ds)
+            before_l = snap(lds)
             r1, e1 = call(ctx, 'apply_decisions(lifted)', apply_decisions, [nb_, lds], check_alias=False)
+            if snap(lds) != before_l:
+                continue          # already reported by call(); re-applying a list that grows on every call can exhaust memory
             r2, e2 = call(ctx, 'apply_decisions(lifted)', apply_decisions, [nb_, lds], check_alias=False)
             call(ctx, 'apply_decisions(lifted)', apply_decisions, [nb_, lds])
             known = mergelib.known_ids(b, l, r)
